@@ -172,8 +172,8 @@ func checkC13(c *core.Ctx, l *core.Ledger) {
 		}
 		var borrow ssa.Instruction
 		core.Instrs(f, func(in ssa.Instruction) {
-			if call, ok := in.(*ssa.Call); ok && call.Call.StaticCallee() != nil && calleeReaches(call.Call.StaticCallee(), "borrowLazy", 3) {
-				borrow = in // the construction itself, or a helper of the package that performs it
+			if call, ok := in.(*ssa.Call); ok && call.Call.StaticCallee() != nil && (obtainsLazy(call) || calleeObtainsLazy(call.Call.StaticCallee(), 3)) {
+				borrow = in // taking a lazy container from its pool: here, or in a helper of the package
 			}
 		})
 		if borrow == nil {
@@ -263,6 +263,41 @@ func calleeReaches(f *ssa.Function, prefix string, depth int) bool {
 	core.Instrs(f, func(in ssa.Instruction) {
 		if call, ok := in.(*ssa.Call); ok {
 			if cal := call.Call.StaticCallee(); cal != nil && cal.Pkg == f.Pkg && cal != f && calleeReaches(cal, prefix, depth-1) {
+				found = true
+			}
+		}
+	})
+	return found
+}
+
+// obtainsLazy: call is sync.Pool.Get whose result is asserted to one of the lazy container types.
+func obtainsLazy(call *ssa.Call) bool {
+	cal := call.Call.StaticCallee()
+	if cal == nil || cal.Pkg == nil || cal.Pkg.Pkg.Path() != "sync" || cal.Name() != "Get" || call.Referrers() == nil {
+		return false
+	}
+	for _, r := range *call.Referrers() {
+		if ta, ok := r.(*ssa.TypeAssert); ok && strings.HasPrefix(core.RecvTypeName(ta.AssertedType), "lazy") {
+			return true
+		}
+	}
+	return false
+}
+
+func calleeObtainsLazy(f *ssa.Function, depth int) bool {
+	if f == nil || len(f.Blocks) == 0 || core.PkgRel(f) != "protocol/binary" {
+		return false
+	}
+	found := false
+	core.Instrs(f, func(in ssa.Instruction) {
+		call, ok := in.(*ssa.Call)
+		if !ok {
+			return
+		}
+		if obtainsLazy(call) {
+			found = true
+		} else if depth > 0 {
+			if cal := call.Call.StaticCallee(); cal != nil && cal != f && calleeObtainsLazy(cal, depth-1) {
 				found = true
 			}
 		}
